@@ -338,6 +338,25 @@ static void build_const_ops()
     OPS("a+L\"w\"", a + L"w");
     OPS("a+u\"w\"", a + u"w");
     OPS("a+U\"w\"", a + U"w");
+    OPS("a+u'x'", a + u'x');
+    OPS("a+L'x'", a + L'x');
+    OPS("u'e-acute'+a", u'\u00e9' + a);
+    OPS("L'x'+a", L'x' + a);
+    OPS("'c'+a", 'c' + a);
+    OPS("L\"w\"+a", L"w" + a);
+    OPS("u\"w\"+a", u"w" + a);
+    OPS("U\"w\"+a", U"w" + a);
+    OPS("u8\"w\"+a", u8"w" + a);
+    OPS("a+u8\"w\"", a + u8"w");
+    OPS("S::from_path(a.to_path())", S::from_path(a.to_path()));
+    OPS("format({},a.to_path())", ST::format("{}", a.to_path()));
+    OPS("(stream<<a.to_path()).to_string()", [&] {
+        ST::string_stream ss;
+        ss << a.to_path();
+        return ss.to_string();
+    }());
+    OPS("S(a.c_str(\"sub\"))", S(a.c_str("sub")));
+    OPS("S(a.u8_str(u8\"sub\"))", S(a.u8_str(u8"sub")));
     OPS("format({},a)", ST::format("{}", a));
     OPS("format({}{},a,b)", ST::format("{}{}", a, b));
     OPS("format({>45},a)", ST::format("{>45}", a));
@@ -439,6 +458,7 @@ static uint64_t scalar_reads(const S &a, const S &b)
     acc += (a == b) + (a != b) + (a < b) + (a == a) + (a == "a") + (a != "a");
     acc += ST::hash()(a) + ST::hash_i()(a) + std::hash<ST::string>()(a) + ST::less_i()(a, b) + ST::equal_i()(a, b);
     acc += a.to_int() + a.to_uint() + a.to_long(cr, 16) + a.to_ulong_long(10) + (uint64_t)a.to_double() + (uint64_t)a.to_float(cr) + a.to_bool();
+    acc += a.to_bool(cr) + (a == ST::null) + (a != ST::null) + (ST::null == a) + (ST::null != a);
     acc += a.size() + a.empty() + (uintptr_t)a.c_str() % 7 + (uintptr_t)a.data() % 7 + (uintptr_t)a.u8_str() % 7 + (uintptr_t)a.c_str("sub") % 7;
     if (!a.empty()) acc += a.at(0) + a[0] + a.front() + a.back() + a.at(a.size() - 1);
     for (auto it = a.begin(); it != a.end(); ++it) acc += *it;
@@ -460,7 +480,8 @@ enum MKind {
     M_ASSIGN_OWN_CSTR, M_SET_OWN_TAIL, M_ASSIGN_OWN_HEAD_VIEW, M_SET_OWN_TAIL_VIEW, M_APPEND_OWN_CSTR, M_SET_OWN_PTRLEN,
     M_SET_OWN_PTRLEN_SUBST, M_SET_OWN_TAIL_ASSUME, M_SET_OWN_VIEW_SUBST,
     // the target is its own argument / the source denotes no text at all
-    M_SET_SELF, M_ASSIGN_NULL_VIEW, M_SET_NULL_CSTR, M_ASSIGN_NULL_U8VIEW
+    M_SET_SELF, M_ASSIGN_NULL_VIEW, M_SET_NULL_CSTR, M_ASSIGN_NULL_U8VIEW,
+    M_APPEND_WIDE_TEXT, M_APPEND_WIDE_CHARS, M_ASSIGN_NULL_T, M_ASSIGN_PATH
 };
 struct MOp {
     MKind k;
@@ -522,6 +543,8 @@ struct StrSys : World {
             ops.push_back(MOp{M_ASSIGN_NULL_VIEW, i, -1, 0});
             ops.push_back(MOp{M_SET_NULL_CSTR, i, -1, 0});
             ops.push_back(MOp{M_ASSIGN_NULL_U8VIEW, i, -1, 0});
+            ops.push_back(MOp{M_ASSIGN_NULL_T, i, -1, 0});
+            ops.push_back(MOp{M_ASSIGN_PATH, i, i, 0});
         }
         vf::tracking_begin();
     }
@@ -556,6 +579,8 @@ struct StrSys : World {
         case M_APPEND: return ai && aj && model[o.i].size() + model[o.j].size() <= cap;
         case M_APPEND_OWN_CSTR:
         case M_APPEND_SELF: return ai && 2 * model[o.i].size() <= cap;
+        case M_APPEND_WIDE_TEXT:
+        case M_APPEND_WIDE_CHARS: return ai && model[o.i].size() + 8 <= cap;
         case M_APPEND_CSTR:
         case M_APPEND_CHAR: return ai && model[o.i].size() + 2 <= cap;
         default: return ai;
@@ -596,6 +621,10 @@ struct StrSys : World {
         case M_SET_OWN_TAIL_ASSUME: return strf("s%d.set(s%d.c_str() + size/2, size - size/2, assume_valid)", o.i, o.i);
         case M_SET_OWN_VIEW_SUBST: return strf("s%d.set(s%d.view(size/2), substitute_invalid)", o.i, o.i);
         case M_SET_SELF: return strf("s%d.set(s%d)", o.i, o.i);
+        case M_APPEND_WIDE_TEXT: return strf("s%d += L\"w\"; += u\"x\"; += U\"y\"; += u8\"z\"", o.i);
+        case M_APPEND_WIDE_CHARS: return strf("s%d += 'c'; += L'w'; += u'x'", o.i);
+        case M_ASSIGN_NULL_T: return strf("s%d = ST::null", o.i);
+        case M_ASSIGN_PATH: return strf("s%d = s%d.to_path()", o.i, o.i);
         case M_ASSIGN_NULL_VIEW: return strf("s%d = std::string_view()", o.i);
         case M_SET_NULL_CSTR: return strf("s%d.set((const char *)nullptr)", o.i);
         case M_ASSIGN_NULL_U8VIEW: return strf("s%d.set(std::u8string_view(), substitute_invalid)", o.i);
@@ -624,14 +653,30 @@ struct StrSys : World {
     bool nontrivial() const { return slots[0].alive && slots[1].alive && (buf(0).m_size >= LL || buf(1).m_size >= LL); }
 
     // take one result of every const operation from every live string
+    // results held across a mutator: one representative per way a result comes into being (the complete battery runs in
+    // every state; holding all of it across every transition only repeats the same ownership paths)
+    static bool held_across_mutators(const std::string &n)
+    {
+        static const char *const REP[] = {"S(a)", "a.substr(0)", "a.substr(2,3)", "a.left(size)", "a.right(3)", "a.trim()", "a.to_upper()", "a.replace(\"ab\",\"XY\")",
+                                          "a.replace(\"\",\"x\")", "a.replace(a,b)", "a.before_first(',')", "a.after_last(S(\"nope\"))", "a+b", "a+a", "\"\"+a",
+                                          "a+U'e-acute'", "format({},a)", "format({>45},a)", "(stream<<a).to_string()", "from_validated(a.to_utf8())",
+                                          "S(a.view())", "a.to_utf8()", "a.to_utf16()", "a.to_utf32()", "a.to_wchar()", "a.to_latin_1()", "a.to_buffer(char_buffer&)",
+                                          "a.split(',')", "a.split(a)", "a.tokenize()", "a.to_std_string()", "a.to_std_u16string()", "ostringstream<<a",
+                                          "\"{}\"_stfmt(lvalue a)", "S::from_path(a.to_path())", "lvalue a+lvalue b"};
+        for (const char *r : REP)
+            if (n == r) return true;
+        return false;
+    }
     void collect(std::vector<Held *> &held, Fails &f, const char *phase)
     {
+        const bool across = strcmp(phase, "before-mutator") == 0;
         static const S other_const = S::from_validated("ab", 2);
         for (int s = 0; s < 2; ++s) {
             if (!slots[s].alive) continue;
             const S &a = *slots[s].obj();
             const S &b = slots[1 - s].alive ? *slots[1 - s].obj() : other_const;
             for (auto &op : g_ops) {
+                if (across && !held_across_mutators(op.name)) continue;
                 Held *h = nullptr;
                 vf::Outcome oc = vf::guard([&] { h = op.make(a, b); });
                 ++n_held;
@@ -844,6 +889,25 @@ struct StrSys : World {
                 m += std::string(m.c_str());
                 tag = "append(own c_str)";
                 break;
+            case M_APPEND_WIDE_TEXT:
+                LIB(*a += L"w"; *a += u"x"; *a += U"y"; *a += u8"z");
+                m += "wxyz";
+                tag = "append(wide text)";
+                break;
+            case M_APPEND_WIDE_CHARS:
+                LIB(*a += 'c'; *a += L'w'; *a += u'x');
+                m += "cwx";
+                tag = "append(char, wchar_t, char16_t)";
+                break;
+            case M_ASSIGN_NULL_T:
+                LIB(*a = ST::null);
+                m.clear();
+                tag = "assign(null)";
+                break;
+            case M_ASSIGN_PATH:
+                LIB(*a = a->to_path());
+                tag = "assign(own to_path())";
+                break;
             case M_SET_SELF:
                 LIB(a->set(*static_cast<const S *>(a)));
                 tag = "set(self)";
@@ -1003,6 +1067,20 @@ struct StrSys : World {
             });
             n_reads += 16;
             if (!oc.ok() && oc.kind != vf::EX_UNICODE) f.push_back(Fail{strf("c04:result-identity:%s", vf::outkind_name(oc.kind)), oc.str()});
+        }
+        // += with every text and character type, on a copy (as mutators of the explored world they would multiply the value space)
+        for (int s = 0; s < 2; ++s) {
+            if (!slots[s].alive) continue;
+            const S &a = *slots[s].obj();
+            std::string got;
+            vf::Outcome oc = vf::guard([&] {
+                LIB(S t(a); t += L"w"; t += u"x"; t += U"y"; t += u8"z"; t += 'c'; t += L'w'; t += u'x'; t += U'\u00e9'; t += "!"; t += S::from_validated("?", 1);
+                    got.assign(t.c_str(), t.size()));
+            });
+            n_reads += 10;
+            if (!oc.ok()) f.push_back(Fail{strf("c04:append-family:%s", vf::outkind_name(oc.kind)), oc.str()});
+            else if (got != model[s] + "wxyzcwx\xC3\xA9!?")
+                f.push_back(Fail{"c04:append-family:wrong-value", strf("copy of s%d after ten += of every text / character type holds %s", s, vf::vis(got).c_str())});
         }
         if (!f.empty()) return;
         // (b) scalar reads
